@@ -34,6 +34,9 @@ const (
 
 var fineFiles = map[string]bool{}
 
+// shimExports: shim package path -> exported (package-level) names.
+var shimExports = map[string]map[string]bool{}
+
 // covMode and covSites: see insertHits.
 var (
 	covMode  bool
@@ -66,6 +69,22 @@ func main() {
 	pkgs, err := packages.Load(cfg, flag.Args()...)
 	if err != nil {
 		fatal(err)
+	}
+	// exported names of the shims: a reference to a name a shim does not
+	// provide keeps the real package (see fallbackSelector)
+	shims, err := packages.Load(&packages.Config{Mode: packages.NeedName | packages.NeedTypes, Dir: cfg.Dir, Env: cfg.Env},
+		vsyncPath, vtimePath, vrandPath, vnetPath)
+	if err != nil {
+		fatal(err)
+	}
+	for _, sp := range shims {
+		names := map[string]bool{}
+		if sp.Types != nil {
+			for _, n := range sp.Types.Scope().Names() {
+				names[n] = true
+			}
+		}
+		shimExports[sp.PkgPath] = names
 	}
 	bad := false
 	for _, p := range pkgs {
@@ -148,6 +167,8 @@ type commInfo struct {
 }
 
 type rewriter struct {
+	realImports map[string]string // alias -> real package path kept next to its shim
+
 	pkg  *packages.Package
 	info *types.Info
 	fset *token.FileSet
@@ -277,6 +298,29 @@ func (rw *rewriter) rewrite() ([]byte, error) {
 	if rw.usedVrt {
 		rw.ensureImport("vrt", vrtPath)
 	}
+	for alias, path := range rw.realImports {
+		rw.ensureImport(alias, path)
+	}
+	if len(rw.realImports) > 0 {
+		// a shim whose every use fell back to the real package is no longer used
+		used := map[string]bool{}
+		ast.Inspect(rw.file, func(n ast.Node) bool {
+			if sel, ok := n.(*ast.SelectorExpr); ok {
+				if id, ok := sel.X.(*ast.Ident); ok {
+					used[id.Name] = true
+				}
+			}
+			return true
+		})
+		for _, imp := range rw.file.Imports {
+			if imp.Name != nil && imp.Name.Name != "_" && imp.Name.Name != "." && !used[imp.Name.Name] {
+				p, _ := strconv.Unquote(imp.Path.Value)
+				if shimExports[p] != nil {
+					imp.Name = ast.NewIdent("_")
+				}
+			}
+		}
+	}
 	stripComments(rw.file)
 	var buf bytes.Buffer
 	buf.WriteString("//go:build go1.18\n\n")
@@ -309,7 +353,7 @@ func stripComments(f *ast.File) {
 	})
 }
 
-func (rw *rewriter) rewriteImports() {
+func (rw *rewriter) replacements() map[string]string {
 	repl := map[string]string{
 		"sync":      vsyncPath,
 		"time":      vtimePath,
@@ -320,6 +364,38 @@ func (rw *rewriter) rewriteImports() {
 	if strings.HasPrefix(rw.pkg.PkgPath, "github.com/lugu/qiloop/") {
 		repl["net"] = vnetPath
 	}
+	return repl
+}
+
+// fallbackSelector keeps the real package for a name the shim does not
+// provide (constants, formatting helpers, rarely used functions): the file
+// then imports the real package under the alias real_<name> as well. Code
+// changes that reach for such a name still build; what the name does is then
+// outside the scheduler's control (stated in the evidence assumptions).
+func (rw *rewriter) fallbackSelector(n *ast.SelectorExpr) {
+	id, ok := n.X.(*ast.Ident)
+	if !ok {
+		return
+	}
+	pn, ok := rw.info.Uses[id].(*types.PkgName)
+	if !ok {
+		return
+	}
+	path := pn.Imported().Path()
+	shim, ok := rw.replacements()[path]
+	if !ok || shimExports[shim] == nil || shimExports[shim][n.Sel.Name] {
+		return
+	}
+	alias := "real_" + strings.ReplaceAll(path[strings.LastIndex(path, "/")+1:], "-", "_")
+	id.Name = alias
+	if rw.realImports == nil {
+		rw.realImports = map[string]string{}
+	}
+	rw.realImports[alias] = path
+}
+
+func (rw *rewriter) rewriteImports() {
+	repl := rw.replacements()
 	for _, imp := range rw.file.Imports {
 		p, _ := strconv.Unquote(imp.Path.Value)
 		np, ok := repl[p]
@@ -352,6 +428,8 @@ func (rw *rewriter) ensureImport(name, path string) {
 
 func (rw *rewriter) pre(c *astutil.Cursor) bool {
 	switch n := c.Node().(type) {
+	case *ast.SelectorExpr:
+		rw.fallbackSelector(n)
 	case *ast.LabeledStmt:
 		rw.labeled[n.Stmt] = true
 	case *ast.AssignStmt:
